@@ -352,6 +352,21 @@ def rule_docfreq(ctx):
     return res.finish(1)
 
 
+def bind_inits(fn):
+    """local -> initialiser, also through `let (a, b) = (ea, eb);`"""
+    out = {}
+    for y in walk(fn["body"]):
+        if y.get("k") != "LetStmt" or y.get("init") is None:
+            continue
+        if y["pat"].get("k") == "Bind":
+            out[y["pat"]["local"]] = y["init"]
+        elif y["pat"].get("k") == "Tuple" and strip(y["init"]).get("k") == "Tup" and len(y["pat"]["pats"]) == len(strip(y["init"])["es"]):
+            for q, e_ in zip(y["pat"]["pats"], strip(y["init"])["es"]):
+                if q.get("k") == "Bind":
+                    out[q["local"]] = e_
+    return out
+
+
 def rule_window(ctx):
     """The vocabulary filter admits exactly the entries with min <= df <= max (both ends inclusive, as documented) that are
     not stop words - in every arm of its case analysis."""
@@ -385,6 +400,16 @@ def rule_window(ctx):
                     op = cm["op"] if df_left else {"<": ">", "<=": ">=", ">": "<", ">=": "<="}[cm["op"]]
                     if op == ">=":
                         lo = True
+                        # a relative minimum turned into a count by truncation (`(min * n) as usize`) is one too small
+                        # whenever min * n is not an integer: `count >= floor(min * n)` admits count / n < min
+                        bound = cm["r"] if df_left else cm["l"]
+                        b0 = strip(bound)
+                        while b0.get("k") in ("Ref",) or (b0.get("k") == "Unary" and b0["op"] == "*"):
+                            b0 = strip(b0["e"])
+                        init = bind_inits(fn).get(b0.get("local")) if b0.get("k") == "Path" else b0
+                        i0 = strip(init) if init is not None else {}
+                        if i0.get("k") == "Cast" and re.match(r"^(u|i)(8|16|32|64|128|size)$", c.ty(i0.get("t")) or "") and re.search(r"\bf(32|64)\b|^F$", c.ty(strip(i0["e"]).get("t")) or ""):
+                            bad = "the lower bound `%s` is a truncated (floor) conversion of the relative minimum times the number of documents: an entry whose relative document frequency is below the minimum passes whenever min*n is not an integer" % r.e(i0)[:40]
                     else:
                         bad = "lower bound tested with `%s` (documented: df >= min)" % r.e(cm)[:40]
                 elif "max" in rr or "max" in l:
